@@ -64,6 +64,9 @@ func (v DenseFloat64Vector) AT(i int) Float64 {
   return Float64{&v[i]}
 }
 func (v DenseFloat64Vector) APPEND(w DenseFloat64Vector) DenseFloat64Vector {
+  // v might be a slice of a longer vector, do not
+  // overwrite the elements behind it
+  v = v[:len(v):len(v)]
   return append(v, w...)
 }
 func (v DenseFloat64Vector) ToDenseFloat64Matrix(n, m int) *DenseFloat64Matrix {
@@ -114,12 +117,18 @@ func (v DenseFloat64Vector) Swap(i, j int) {
   v[i], v[j] = v[j], v[i]
 }
 func (v DenseFloat64Vector) AppendScalar(scalars ...Scalar) Vector {
+  // v might be a slice of a longer vector, do not
+  // overwrite the elements behind it
+  v = v[:len(v):len(v)]
   for _, scalar := range scalars {
     v = append(v, scalar.GetFloat64())
   }
   return v
 }
 func (v DenseFloat64Vector) AppendVector(w Vector) Vector {
+  // v might be a slice of a longer vector, do not
+  // overwrite the elements behind it
+  v = v[:len(v):len(v)]
   for i := 0; i < w.Dim(); i++ {
     v = append(v, w.ConstAt(i).GetFloat64())
   }
